@@ -1,5 +1,6 @@
 import HcModel.Generated.PairLabels
 import HcProofs.Lemmas.Framing
+import HcProofs.Lemmas.ConnRead
 /-
   C05 — any alteration of the encrypted stream is detected.
   Property theorems only; helper lemmas live in HcProofs/Lemmas/Framing.lean.
@@ -74,6 +75,61 @@ theorem truncation_at_boundary (sent : List Bytes) (s : Rx) (pre : List DFrame) 
       congr 2; omega
   unfold rxCall
   rw [h s.cnt pre hpre]
+
+/-! ### truncation inside a frame, at the connection (model: HcModel/ConnRead.lean, C07's; F65) -/
+
+section cut
+open Hc.ConnRead
+variable {α : Type}
+
+/-- Whatever is buffered, in flight and still to come, and however the network delivers it: when the loop of
+    `DecryptedRead` reports the clean end of the stream (`io.EOF`), nothing of a frame is left in its buffer — the stream
+    ended between two frames, which no receiver can tell from an orderly close —; and when the stream ends while part of
+    a frame is buffered it reports `io.ErrUnexpectedEOF` and closes the connection. So a frame that was cut in the middle
+    is reported as an error, never as the end of the stream. -/
+theorem truncation_inside_frame_is_reported (buf flight : Nat) (closed : Bool) (todo : List (Frame α)) (net : List Ev) :
+    ((fetchAux buf flight closed todo net).2.2 = some .eof → (fetchAux buf flight closed todo net).1.buf = 0) ∧
+    ((fetchAux buf flight closed todo net).2.2 = some .cut →
+      0 < (fetchAux buf flight closed todo net).1.buf ∧ (fetchAux buf flight closed todo net).1.closed = true) := by
+  fun_induction fetchAux buf flight closed todo net with
+  | case1 buf flight net f r h1 h2 h3 ih => exact ih
+  | case6 buf flight f r h1 h2 n net' ih => exact ih
+  | case11 buf flight h n net' ih => exact ih
+  | _ => first | (simp; done) | (split <;> simp_all <;> omega)
+
+/-- the same for one `Read` of a connection whose decrypted buffer is empty -/
+theorem read_eof_only_between_frames (s : St α) (net : List Ev) (b : Nat) (hrem : s.rem = []) :
+    (ConnRead.read s net b).2.2 = .eof → (ConnRead.read s net b).1.buf = 0 ∨ (fetch s net).2.2 = none := by
+  intro h
+  unfold ConnRead.read at h ⊢
+  simp only [hrem, List.isEmpty_nil, Bool.not_true, Bool.false_eq_true, if_false] at h ⊢
+  rcases hf : fetch s net with ⟨s', net', r⟩
+  rw [hf] at h
+  cases r with
+  | none => exact .inr rfl
+  | some r =>
+    simp only at h ⊢
+    subst h
+    have := (truncation_inside_frame_is_reported s.buf s.flight s.closed s.todo net).1
+    unfold fetch at hf
+    rw [hf] at this
+    exact .inl (this rfl)
+
+-- a frame of 3 plaintext bytes (21 on the wire) of which 10 arrive before the connection ends: reported as cut …
+example : (ConnRead.read (init [⟨[1, 2, 3], true⟩]) [.seg 10, .closed] 8).2.2 = (.cut : Res Nat) := by
+  simp [ConnRead.read, fetch, fetchAux, init, streamSize, Frame.size]
+-- … and the end after the whole frame (and after its plaintext was read) as the end
+example : (run (init [⟨[1, 2, 3], true⟩]) [.seg 21, .closed] [8, 8]).2.2 = [.data [1, 2, 3], (.eof : Res Nat)] := by
+  simp [run, ConnRead.read, fetch, fetchAux, init, streamSize, Frame.size, bufRead]
+
+/-- F65 before the repair (`Res.unfixed`: both ends are `io.EOF`): the reader is told "end of stream" while ten bytes of
+    a frame sit in the buffer. -/
+theorem truncation_inside_frame_unfixed_refuted :
+    ∃ (fs : List (Frame Nat)) (net : List Ev) (b : Nat),
+      (ConnRead.read (init fs) net b).2.2.unfixed = .eof ∧ (ConnRead.read (init fs) net b).1.buf ≠ 0 :=
+  ⟨[⟨[1, 2, 3], true⟩], [.seg 10, .closed], 8, by simp [ConnRead.read, fetch, fetchAux, init, streamSize, Frame.size, Res.unfixed]⟩
+
+end cut
 
 /-- Byte level, arbitrary input bytes: if Decrypt accepts, the input begins with frames sealed under the
     receiver's key with the consecutive counters from the receiver's counter — the wire format of C06 — and
